@@ -264,6 +264,22 @@ func c45PushCase(rt *rapid.T, env *c45Env, rec *vh.Recorder) {
 	}()
 	se := srv.Session(rt, "p", db)
 	defer se.Close()
+	if async {
+		// the initial push of the default branch (made by CREATE DATABASE) is asynchronous too: let it land
+		deadline := time.Now().Add(8 * time.Second)
+		for {
+			local, lerr := c45LocalRefs(se)
+			remote, rerr := c45DirRefs(remoteDir)
+			if lerr == nil && rerr == nil && local["branch main"] != "" && remote["branch main"] == local["branch main"] {
+				break
+			}
+			if time.Now().After(deadline) {
+				vh.Inconclusive(rt, "async: the initial push of main did not arrive within 8 s (local %v / %v, remote %v / %v)", local, lerr, remote, rerr)
+			}
+			time.Sleep(20 * time.Millisecond)
+		}
+		c45Capt.take()
+	}
 	away := false
 	nextPK := 0
 	moved := map[string]bool{}
